@@ -453,7 +453,7 @@ func TestVerifC11Child(t *testing.T) {
 		for _, n := range []int{2, 3} {
 			n := n
 			vRegScenario(r, fmt.Sprintf("same-key-in-lockstep/%d", n), []int{0, 1}, func(w *vRegWorld) string {
-				verifrt.Lockstep([]string{"Server.wshandler#", "connectionsManager.", "Server.ensureSingleClientConnection#"}, n, 150*time.Millisecond)
+				verifrt.Lockstep([]string{"Server.wshandler#", "connectionsManager.", "Server.ensureSingleClientConnection#"}, n, 300*time.Millisecond)
 				var wg sync.WaitGroup
 				for i := 0; i < n; i++ {
 					wg.Add(1)
